@@ -390,3 +390,28 @@ Proof.
         pose proof (HC o' Ha' (fun F => F) Hidle) as Hq. unfold queued in *. rewrite Eg.
         change (get_inv s'' (o_inv (get_op s o'))) with (get_inv s' (o_inv (get_op s o'))). apply Hq'; assumption.
 Qed.
+
+(* ---- the clean-up queue -------------------------------------------------------------------------------------------------- *)
+Lemma FI_run_entry : forall e s, In e (cleanup_entries s) -> FI s -> FI (run_entry e s).
+Proof.
+  intros [z ce] s Hin H. unfold run_entry. cbn [fst snd]. destruct ce as [o|w|k].
+  - apply FI_operation_remove.
+    + rewrite op_alive_upd_op. eapply cleanup_entry_op_alive. exact Hin.
+    + fi_prim H.
+  - pose proof (cleanup_entry_worker s z w (SW_St _ (FI_SW _ H)) Hin) as Hc.
+    pose proof (SW_WP _ (FI_SW _ H)) as [A2 [_ [B1 _]]].
+    apply FI_remove_stale_worker.
+    + eapply unnamed_frame; [apply calls_upd_worker|]. intros c p Hcp Hs. destruct (A2 _ _ _ Hcp Hs) as [_ E]. congruence.
+    + rewrite get_worker_upd_worker. destruct (wref_eqb w w && worker_exists s w); cbn; apply B1; congruence.
+    + fi_prim H.
+  - pose proof (cleanup_entry_scq s z k (SW_St _ (FI_SW _ H)) Hin) as Hc.
+    pose proof (SW_WP _ (FI_SW _ H)) as [_ [_ [_ [_ [_ [_ [_ E7]]]]]]].
+    apply FI_scq_remove; [|fi_prim H].
+    assert (Hn : NWf k s) by (apply E7; congruence). change (NWf k (upd_scq k (fun q => q <| q_cleanup := None |>) s)). t_nw.
+Qed.
+
+Lemma FI_enter : forall t s, FI s -> FI (enter t s).
+Proof.
+  intros t s H. unfold enter. destruct (s_now s <? t); [|exact H]. cbv zeta.
+  apply cleanup_run_closed; [intros s1 w H1; fi_prim H1 | intros; apply FI_run_entry; assumption | fi_prim H].
+Qed.
